@@ -16,6 +16,27 @@ CUR = None          # the active Env (fake native keys record into it)
 _REAL_DUMPS = json.dumps
 
 
+try:
+    from crosshair.tracers import NoTracing as _NoTracing
+except ImportError:  # pragma: no cover
+    _NoTracing = contextlib.nullcontext
+
+
+def stable_token(prefix, v):
+    """content-addressed token text for a value made of plain Python values / Opaque objects, else None.  Runs outside
+    CrossHair's tracing: with tracing on, repr()/encode() of values that merely passed through symbolic operations is
+    modelled symbolically and costs seconds."""
+    with _NoTracing():
+        if v.__class__ is bytes:
+            return prefix + hashlib.sha1(v).hexdigest()[:12]
+        if isinstance(v, Opaque):
+            f = _fp(v)
+            return None if f is None else "O" + hashlib.sha1(f.encode()).hexdigest()[:12]
+        if _concrete(v):
+            return prefix + hashlib.sha1(_REAL_DUMPS(v, sort_keys=False, default=repr).encode()).hexdigest()[:12]
+    return None
+
+
 def _concrete(v, depth=0):
     """True iff v is a plain Python value (no CrossHair symbolic, no opaque object) -- then its token is content-addressed"""
     c = v.__class__
@@ -140,14 +161,10 @@ class Env:
         for tok, val in self.b64.items():
             if not isinstance(val, BaseException) and type(val) is type(v) and val == v:
                 return tok
-        if v.__class__ is bytes:
-            # content-addressed: the same octets get the same token in every environment (needed when results of different
-            # calls are compared, C20)
-            tok = b"E" + hashlib.sha1(v).hexdigest()[:12].encode()
-        elif isinstance(v, Opaque) and _fp(v) is not None:
-            tok = b"O" + hashlib.sha1(_fp(v).encode()).hexdigest()[:12].encode()
-        else:
-            tok = b"E%d" % len(self.b64_made)
+        # content-addressed where possible: the same octets get the same token in every environment (needed when results of
+        # different calls are compared, C20)
+        st = stable_token("E", v) if (v.__class__ is bytes or isinstance(v, Opaque)) else None
+        tok = st.encode() if st is not None else b"E%d" % len(self.b64_made)
         self.b64_made.append((v, tok))
         return tok
 
@@ -175,10 +192,7 @@ class Env:
         for val, tok in self.js_made:
             if val == obj:
                 return tok
-        if _concrete(obj):
-            tok = "J" + hashlib.sha1(_REAL_DUMPS(obj, sort_keys=False, default=repr).encode()).hexdigest()[:12]
-        else:
-            tok = "J%d" % len(self.js_made)
+        tok = stable_token("J", obj) or "J%d" % len(self.js_made)
         self.js_made.append((jcopy(obj), tok))
         return tok
 
